@@ -48,6 +48,37 @@ func nodeText(fs *token.FileSet, n ast.Node) string {
 	return strings.Join(strings.Fields(sb.String()), " ")
 }
 
+// sigText prints a function type with the TYPES of its parameters and results only: renaming a parameter is
+// not a change of the declaration shape.
+func sigText(fs *token.FileSet, ft *ast.FuncType) string {
+	list := func(fl *ast.FieldList) []string {
+		var out []string
+		if fl == nil {
+			return out
+		}
+		for _, f := range fl.List {
+			n := len(f.Names)
+			if n == 0 {
+				n = 1
+			}
+			for i := 0; i < n; i++ {
+				out = append(out, nodeText(fs, f.Type))
+			}
+		}
+		return out
+	}
+	res := list(ft.Results)
+	s := "(" + strings.Join(list(ft.Params), ", ") + ")"
+	switch len(res) {
+	case 0:
+	case 1:
+		s += " " + res[0]
+	default:
+		s += " (" + strings.Join(res, ", ") + ")"
+	}
+	return s
+}
+
 func shapeOfFile(path string) ([]string, error) {
 	fs := token.NewFileSet()
 	f, err := parser.ParseFile(fs, path, nil, parser.SkipObjectResolution) // comments dropped
@@ -62,7 +93,7 @@ func shapeOfFile(path string) ([]string, error) {
 			if d.Recv != nil && len(d.Recv.List) == 1 {
 				recv = "(" + nodeText(fs, d.Recv.List[0].Type) + ") "
 			}
-			out = append(out, "func "+recv+d.Name.Name+strings.TrimPrefix(nodeText(fs, d.Type), "func"))
+			out = append(out, "func "+recv+d.Name.Name+sigText(fs, d.Type))
 		case *ast.GenDecl:
 			for _, s := range d.Specs {
 				switch s := s.(type) {
@@ -209,7 +240,7 @@ func writeShape(repo, propsPath, id, outDir, extra string) error {
 					t = st.X
 				}
 				if id, ok := t.(*ast.Ident); ok && typesByDir[dir][id.Name] {
-					extra = append(extra, "func ("+nodeText(fs, fd.Recv.List[0].Type)+") "+fd.Name.Name+strings.TrimPrefix(nodeText(fs, fd.Type), "func")+"   [in "+n+"]")
+					extra = append(extra, "func ("+nodeText(fs, fd.Recv.List[0].Type)+") "+fd.Name.Name+sigText(fs, fd.Type)+"   [in "+n+"]")
 				}
 			}
 		}
